@@ -1,4 +1,14 @@
-"""Function-body specs for cnvlib/access.py (property C13): one iteration of join_regions' inner loop."""
+"""Function-body specs for cnvlib/access.py (property C13): one iteration of join_regions' inner loop, one iteration of the
+FASTA scanner, the contig-name rule (cnvlib/antitarget.py) and do_access' dispatch on skip_noncanonical.
+
+Mutations of the last two, tried with tools/mut_fn.sh:
+  FnAccessCanon     `return not re_noncanonical.search(name)` -> `return re_noncanonical.search(name)`   KILLED (source_is_canonical)
+                    `.search(name)` -> `.match(name)`                          translator REFUSES (unsupported call: the opaque key is gone)
+  FnAccessDispatch  `if skip_noncanonical:` -> `if not skip_noncanonical:`     KILLED (source_dispatch)
+                    `fa_regions = drop_noncanonical_contigs(fa_regions)` -> `fa_regions = fa_regions`    KILLED
+  FnAccessExclude   `access_regions.subtract(excluded)` -> `excluded.subtract(access_regions)`           KILLED (source_exclude_step)
+                    `access_regions = access_regions.subtract(excluded)` -> `access_regions = excluded`  KILLED
+"""
 MODULES = {
     # join_regions: ONE ITERATION of `for start, end in coords:` as a step function of the carried pair
     # (prev_start, prev_end) and the loop's (start, end); the result also lists the regions the iteration yields.
@@ -39,5 +49,47 @@ MODULES = {
                      ('len(line)', 'Z', 'line_len'),
                      ('mixed_yields', 'Y'), ('mixed_run_start', 'OZ')],
              ret=['S', 'Z', 'OZ']),
+    ]),
+    # is_canonical_contig_name (cnvlib/antitarget.py), the WHOLE function: `return not re_noncanonical.search(name)`.  The
+    # search result (a Match object, always truthy, or None) is an opaque boolean "the pattern is found in the name"; the
+    # pattern itself is tied by Gen.Patterns.re_noncanonical_src (C13_source_pattern).
+    # (Proofs/FnAccessCanon.v: C13_source_is_canonical -- with the model's `noncanonical name` it is is_canonical_contig_name)
+    # mutations (tools/mut_fn.sh): `return not re_noncanonical.search(name)` -> `return re_noncanonical.search(name)` KILLED
+    # (type error in the generated definition's use); `.search(name)` -> `.match(name)` translator REFUSES (unknown call)
+    'FnAccessCanon': ('cnvlib/antitarget.py', [
+        dict(name='is_canonical_contig_name', coq='fn_is_canonical', py_params=['name'],
+             params=[('re_noncanonical.search(name)', 'B', 'pattern_found')], ret='B'),
+    ]),
+    # do_access: the dispatch before the exclude loop (fragment `fa_regions = get_regions(fa_fname)` .. `if skip_noncanonical:
+    # fa_regions = drop_noncanonical_contigs(fa_regions)`): WHICH table goes on.  Tables are opaque ids; the generator
+    # drop_noncanonical_contigs is a function-typed input on ids.
+    # (Proofs/FnAccessCanon.v: C13_source_dispatch -- under any reading of ids as tables in which the function input drops
+    # the rows with a non-canonical name, the table that goes on is the model's drop_noncanonical skip)
+    # mutations: `if skip_noncanonical:` -> `if not skip_noncanonical:` KILLED; `fa_regions = drop_noncanonical_contigs(fa_regions)`
+    # -> `fa_regions = fa_regions` KILLED
+    'FnAccessDispatch': ('cnvlib/access.py', [
+        dict(name='do_access', coq='fn_access_dispatch',
+             py_params=['fa_fname', 'exclude_fnames', 'min_gap_size', 'skip_noncanonical'],
+             fragment=dict(first='fa_regions = get_regions(', last='if '),
+             returns=['fa_regions'],
+             params=[('get_regions(fa_fname)', 'Z', 'scanned_id'), ('skip_noncanonical', 'B'),
+                     ('drop_noncanonical_contigs', 'F:Z>Z', 'drop_fn')],
+             ret='Z'),
+    ]),
+    # do_access: ONE ITERATION of the exclude loop `for ex_fname in exclude_fnames: excluded = tabio.read(ex_fname, "bed3");
+    # access_regions = access_regions.subtract(excluded)` -- the carried table after the iteration.  Tables are opaque ids;
+    # the table read from the file is an opaque id keyed by its source text, `.subtract` a method-typed input on ids.
+    # (Proofs/FnAccessExclude.v: C13_source_exclude_loop -- under any reading of ids as region lists in which .subtract is the
+    # model's exclude_one, the step folded over the exclude files is Model/AccessPipe.v exclude_all)
+    # mutations: `access_regions.subtract(excluded)` -> `excluded.subtract(access_regions)` KILLED; `access_regions = access_regions.subtract(excluded)`
+    # -> `access_regions = excluded` KILLED
+    'FnAccessExclude': ('cnvlib/access.py', [
+        dict(name='do_access', coq='fn_exclude_step',
+             py_params=['fa_fname', 'exclude_fnames', 'min_gap_size', 'skip_noncanonical'],
+             loop=dict(first='for ex_fname in exclude_fnames'),
+             carried=[('access_regions', 'Z')],
+             params=[('access_regions', 'Z'), ("tabio.read(ex_fname, 'bed3')", 'Z', 'excluded_id'),
+                     ('.subtract', 'F:Z,Z>Z', 'subtract_fn')],
+             ret='Z'),
     ]),
 }
